@@ -28,8 +28,9 @@ open XixiKV XixiKV.Frame XixiKV.Record XixiKV.Index XixiKV.Engine XixiKV.Engine.
     2. the hinted keys are pairwise distinct, and they are exactly the keys stored in the files;
     3. every hinted position reads back (`readAt`, the position-based read used by `Get`) the
        encoding of a plain (batch id 0), non-tombstone record with exactly that key, which decodes;
-    4. the sequential reader reports, for every merged file, the same positions — block, offset
-       AND size (the bytes the record occupies, headers included) — that the hint stores;
+    4. the sequential reader (strict or tolerating a torn tail) reports, for every merged file,
+       the same positions — block, offset AND size (the bytes the record occupies, headers
+       included) — that the hint stores;
     5. hence `loadIndexFromHintFile` from the empty state yields the same replay state — same
        keys, same positions and sizes, same `total`, `reclaim = 0` — as `loadIndexFromDataFiles`
        scanning the merged files record by record (`indexFromHint = indexFromScan`), and the
@@ -37,8 +38,8 @@ open XixiKV XixiKV.Frame XixiKV.Record XixiKV.Index XixiKV.Engine XixiKV.Engine.
 theorem C18_hint (gm : GDir) (data : List (Nat × FileSt)) (hmt : Matches data gm) (hasc : AscIds gm)
     (hM : Merged gm) (hF : HintFits gm) :
     -- 1
-    ((scan C 0 (hintBytes gm)).ok = true ∧
-     (scan C 0 (hintBytes gm)).recs.map (fun (x : ByteArray × Pos) => decodeHint x.1)
+    ((scan C false 0 (hintBytes gm)).ok = true ∧
+     (scan C false 0 (hintBytes gm)).recs.map (fun (x : ByteArray × Pos) => decodeHint x.1)
        = (logOf gm).map (fun x => some (x.1.key, x.2))) ∧
     -- 2
     ((logOf gm).map (fun x => x.1.key)).Nodup ∧
@@ -48,7 +49,8 @@ theorem C18_hint (gm : GDir) (data : List (Nat × FileSt)) (hmt : Matches data g
         decodeRecord (encodeRecord x.1) = some x.1 ∧ x.1.batch = 0 ∧ x.1.typ ≠ 1) ∧
     -- 4
     (∀ y ∈ gm, ∃ f, getFile data y.1 = some f ∧
-        scan C y.1 f.bytes = { recs := (payloads y.2).zip (possOf y.1 y.2), validEnd := f.bytes.size, ok := true }) ∧
+        ∀ tol, scan C tol y.1 f.bytes
+          = { recs := (payloads y.2).zip (possOf y.1 y.2), validEnd := f.bytes.size, ok := true }) ∧
     -- 5
     (∃ maxFid, loadHint Replay.init (hintBytes gm) = some (replayLog (logOf gm), maxFid) ∧
         loadIndex Replay.init 0 data = some (replayLog (logOf gm), data) ∧
@@ -67,9 +69,9 @@ theorem C18_hint (gm : GDir) (data : List (Nat × FileSt)) (hmt : Matches data g
     exact (hM.recs y hy r (List.of_mem_zip hz).1).decode
   · intro y hy
     obtain ⟨f, hf, hb⟩ := Matches_getFile hmt hasc (show (y.1, y.2) ∈ gm from hy)
-    refine ⟨f, hf, ?_⟩
+    refine ⟨f, hf, fun tol => ?_⟩
     rw [hb]
-    exact scan_build C y.1 (payloads y.2) (payloads_pos y.2)
+    exact scan_build C tol y.1 (payloads y.2) (payloads_pos y.2)
   · obtain ⟨maxFid, h1, h2, h3⟩ := loadHint_eq_replay gm hM hF
     have hcnt := replay_counters (logOf gm)
     have hr : (replayLog (logOf gm)).reclaim = 0 ∧ (replayLog (logOf gm)).pending = [] := by
@@ -152,8 +154,8 @@ def ixList (r : Replay) : List (List UInt8 × Pos) := r.index.map (fun x => (x.1
 #guard ((logOf exGm).map (fun x => x.1.key.data.toList)).Nodup
 #guard (logOf exGm).all (fun x => x.2.fid < 2^32 && x.2.block < 2^32 && x.2.off < 2^32 && x.2.size < 2^32)
 -- conclusions, evaluated
-#guard (scan C 0 (hintBytes exGm)).ok
-#guard ((scan C 0 (hintBytes exGm)).recs.map (fun x => (decodeHint x.1).map (fun y => (y.1.data.toList, y.2))))
+#guard (scan C false 0 (hintBytes exGm)).ok
+#guard ((scan C false 0 (hintBytes exGm)).recs.map (fun x => (decodeHint x.1).map (fun y => (y.1.data.toList, y.2))))
     == (logOf exGm).map (fun x => some (x.1.key.data.toList, x.2))
 #guard (match loadHint Replay.init (hintBytes exGm), loadIndex Replay.init 0 exData with
   | some (rh, m), some (rs, _) => ixList rh == ixList rs && rh.total == rs.total && rh.reclaim == rs.reclaim && m == 1
